@@ -2,6 +2,7 @@
 //! publishes into plain f64 data for the oracle.
 
 use crate::case::{Case, Kern, Task};
+use crate::mem;
 use linfa::dataset::{DatasetBase, Pr};
 use linfa::traits::{Fit, Predict};
 use linfa_svm::Svm;
@@ -62,6 +63,12 @@ macro_rules! impl_run {
                     case.fresh[i - n][j] as $f
                 }
             });
+            // the same logical matrices in the memory layout of the case (gaps of strided views hold junk)
+            let xo = mem::owned(&x, case.mem);
+            let xb = mem::backing(&x, case.mem, 1.0e30 as $f);
+            let xv = mem::view_of(&xb, case.mem, n, p);
+            let qb = mem::backing(&all, case.qmem, 1.0e30 as $f);
+            let allq = mem::view_of(&qb, case.qmem, n + m, p);
             macro_rules! with_common {
                 ($params:expr) => {{
                     let prm = $params.eps(case.eps as $f).shrinking(case.shrinking);
@@ -78,7 +85,7 @@ macro_rules! impl_run {
                     let ws: Vec<f64> = all.outer_iter().map(|r| model.weighted_sum(&r) as f64).collect();
                     let own_sign: Vec<bool> =
                         all.outer_iter().map(|r| model.weighted_sum(&r) - model.rho >= 0.0).collect();
-                    let outs = Outs::Bool(model.predict(&all).to_vec());
+                    let outs = Outs::Bool(model.predict(&allq).to_vec());
                     let mut outs_single = vec![];
                     for i in [0usize, n + m - 1] {
                         let b: bool = model.predict(all.row(i));
@@ -99,19 +106,37 @@ macro_rules! impl_run {
             }
             let res: Result<Result<Extract, String>, String> = vengine::guard(|| match &case.task {
                 Task::CSvc { cpos, cneg, labels, .. } => {
-                    let ds = DatasetBase::new(x.clone(), Array1::from(labels.clone()));
+                    let y = Array1::from(labels.clone());
                     let prm = with_common!(Svm::<$f, bool>::params()).pos_neg_weights(*cpos as $f, *cneg as $f);
-                    prm.fit(&ds).map(|m| extract_bool!(m)).map_err(|e| e.to_string())
+                    if mem::is_view(case.mem) {
+                        let ds = DatasetBase::new(xv.clone(), y.view());
+                        prm.fit(&ds).map(|m| extract_bool!(m)).map_err(|e| e.to_string())
+                    } else {
+                        let ds = DatasetBase::new(xo.clone(), y);
+                        prm.fit(&ds).map(|m| extract_bool!(m)).map_err(|e| e.to_string())
+                    }
                 }
                 Task::NuSvc { nu, labels, .. } => {
-                    let ds = DatasetBase::new(x.clone(), Array1::from(labels.clone()));
+                    let y = Array1::from(labels.clone());
                     let prm = with_common!(Svm::<$f, bool>::params()).nu_weight(*nu as $f);
-                    prm.fit(&ds).map(|m| extract_bool!(m)).map_err(|e| e.to_string())
+                    if mem::is_view(case.mem) {
+                        let ds = DatasetBase::new(xv.clone(), y.view());
+                        prm.fit(&ds).map(|m| extract_bool!(m)).map_err(|e| e.to_string())
+                    } else {
+                        let ds = DatasetBase::new(xo.clone(), y);
+                        prm.fit(&ds).map(|m| extract_bool!(m)).map_err(|e| e.to_string())
+                    }
                 }
                 Task::OneClass { nu } => {
-                    let ds = DatasetBase::from(x.clone());
                     let prm = with_common!(Svm::<$f, Pr>::params()).nu_weight(*nu as $f);
-                    prm.fit(&ds).map(|m| extract_bool!(m)).map_err(|e| e.to_string())
+                    if mem::is_view(case.mem) {
+                        let y = Array1::<()>::from_elem(n, ());
+                        let ds = DatasetBase::new(xv.clone(), y.view());
+                        prm.fit(&ds).map(|m| extract_bool!(m)).map_err(|e| e.to_string())
+                    } else {
+                        let ds = DatasetBase::from(xo.clone());
+                        prm.fit(&ds).map(|m| extract_bool!(m)).map_err(|e| e.to_string())
+                    }
                 }
                 Task::EpsSvr { .. } | Task::NuSvr { .. } => {
                     let (targets, prm) = match &case.task {
@@ -126,13 +151,17 @@ macro_rules! impl_run {
                         _ => unreachable!(),
                     };
                     let y: Array1<$f> = targets.iter().map(|v| *v as $f).collect();
-                    let ds = DatasetBase::new(x.clone(), y);
-                    prm.fit(&ds)
+                    let fitted = if mem::is_view(case.mem) {
+                        prm.fit(&DatasetBase::new(xv.clone(), y.view()))
+                    } else {
+                        prm.fit(&DatasetBase::new(xo.clone(), y.clone()))
+                    };
+                    fitted
                         .map(|model| {
                             let ws: Vec<f64> = all.outer_iter().map(|r| model.weighted_sum(&r) as f64).collect();
                             let own_sign: Vec<bool> =
                                 all.outer_iter().map(|r| model.weighted_sum(&r) - model.rho >= 0.0).collect();
-                            let pred: Array1<$f> = model.predict(&all);
+                            let pred: Array1<$f> = model.predict(&allq);
                             let outs = Outs::Real(pred.iter().map(|v| *v as f64).collect());
                             let mut outs_single = vec![];
                             for i in [0usize, n + m - 1] {
@@ -174,6 +203,12 @@ macro_rules! impl_run {
                     case.fresh[i - n][j] as $f
                 }
             });
+            // the same logical matrices in the memory layout of the case (gaps of strided views hold junk)
+            let xo = mem::owned(&x, case.mem);
+            let xb = mem::backing(&x, case.mem, 1.0e30 as $f);
+            let xv = mem::view_of(&xb, case.mem, n, p);
+            let qb = mem::backing(&all, case.qmem, 1.0e30 as $f);
+            let allq = mem::view_of(&qb, case.qmem, n + m, p);
             let (labels, prm) = match &case.task {
                 Task::CSvc { cpos, cneg, labels, platt: true } => {
                     (labels, Svm::<$f, Pr>::params().pos_neg_weights(*cpos as $f, *cneg as $f))
@@ -187,11 +222,16 @@ macro_rules! impl_run {
                 Kern::Gaussian(e) => prm.gaussian_kernel(e as $f),
                 Kern::Poly(c, d) => prm.polynomial_kernel(c as $f, d as $f),
             };
-            let ds = DatasetBase::new(x, Array1::from(labels.clone()));
+            let y = Array1::from(labels.clone());
             let res = vengine::guard(|| {
-                prm.fit(&ds)
+                let fitted = if mem::is_view(case.mem) {
+                    prm.fit(&DatasetBase::new(xv.clone(), y.view()))
+                } else {
+                    prm.fit(&DatasetBase::new(xo.clone(), y.clone()))
+                };
+                fitted
                     .map(|model| {
-                        let probs: Vec<f64> = model.predict(&all).iter().map(|p| **p as f64).collect();
+                        let probs: Vec<f64> = model.predict(&allq).iter().map(|p| **p as f64).collect();
                         let mut probs_single = vec![];
                         for i in [0usize, n + m - 1] {
                             let pr: Pr = model.predict(all.row(i));
